@@ -1007,51 +1007,76 @@ Section Sim.
       + repeat split; try assumption; lia.
   Qed.
 
+  (* [safe_match] in partial mode anywhere in the buffer; the match may start in the external dictionary *)
+  Lemma safe_match_part s offset length :
+    partial = true ->
+    1 <= offset -> lowPrefix - hroom <= op s - offset -> 4 <= length -> 0 <= op s -> op s <= oend ->
+    is_cont_or_done (safe_match partial dict oend lowPrefix rlow dictm dictSize s offset length)
+      (fun done s' => ip s' = ip s /\ op s' = op s + Z.min length (oend - op s) /\
+                      same_below (dm s) (dm s') (op s) /\
+                      frec (vget (dm s')) offset (op s) (op s + Z.min length (oend - op s)) /\
+                      (if done then op s' = oend else Z.min length (oend - op s) = length \/ op s' = oend)).
+  Proof.
+    intros Hp Ho Hmat Hlen Hop Hoe.
+    destruct (Z_lt_ge_dec (op s - offset) lowPrefix) as [Hext|Hin].
+    - (* external dictionary: Cont, even when cut at oend *)
+      destruct hroom_ext as [Hed Hhr]; [lia|].
+      unfold safe_match. cbv zeta.
+      assert (E1 : checkOffset dictSize && (op s - offset + dictSize <? lowPrefix) = false) by lia. rewrite E1. cbv beta iota.
+      assert (E2 : is_extdict dict && (op s - offset <? lowPrefix) = true) by lia. rewrite E2. cbv beta iota.
+      eapply is_cont_cod.
+      + apply is_cont_f_false. apply ext_match_part; try assumption; try lia; try (rewrite Hp; discriminate).
+      + cbn beta. intros s' (H1 & H2 & H3 & H4). repeat split; try assumption. lia.
+    - destruct (Z_le_gt_dec (op s + length) (oend - 12)) as [Hfar|Hnear].
+      + eapply is_cont_cod.
+        * pose proof hroom_range. apply (safe_match_v s offset length); try assumption; try lia; try (rewrite Hp; exact Hfar).
+        * intros s' (H1 & H2 & H3 & H4).
+          replace (Z.min length (oend - op s)) with length by lia. repeat split; try assumption. left; reflexivity.
+      + eapply is_cod_mono.
+        * apply (safe_match_cut s offset length); try assumption; lia.
+        * cbn beta. intros done s' (H1 & H2 & H3 & H4 & H5).
+          split; [exact H1|]. split; [exact H2|]. split; [exact H3|]. split; [apply lzrec_v; [exact H4 | lia | lia]|].
+          destruct done; [exact H5 | lia].
+  Qed.
+
   (* [_copy_match] in partial mode, anywhere in the buffer *)
   Lemma copy_match_lbl_part s offset nib r3 ml r4 :
     partial = true ->
     0 <= nib <= 15 ->
     read_len nib r3 = Some (ml, r4) -> src_at srcm (ip s) r3 -> bytes r3 ->
     0 <= ip s -> ip s + Z.of_nat (length r3) <= iend -> (4 <= length r4)%nat ->
-    1 <= offset -> lowPrefix <= op s - offset -> 0 <= op s -> op s <= oend ->
+    1 <= offset -> lowPrefix - hroom <= op s - offset -> 0 <= op s -> op s <= oend ->
     is_cont_or_done (copy_match_lbl partial dict srcm iend oend lowPrefix rlow dictm dictSize s offset nib)
       (fun done s' => op s' = op s + Z.min (ml + 4) (oend - op s) /\
                       same_below (dm s) (dm s') (op s) /\
                       frec (vget (dm s')) offset (op s) (op s + Z.min (ml + 4) (oend - op s)) /\
                       0 <= ml /\
                       (if done then op s' = oend
-                       else op s' = op s + (ml + 4) /\
+                       else (Z.min (ml + 4) (oend - op s) = ml + 4 \/ op s' = oend) /\
                             ip s' = ip s + (Z.of_nat (length r3) - Z.of_nat (length r4)) /\ src_at srcm (ip s') r4)).
   Proof.
     intros Hp Hnib Hrl Hs Hb Hip Hie Hr4 Ho Hmat Hop0 Hop.
     assert (Hml : 0 <= ml).
     { unfold read_len in Hrl. destruct (nib =? 15); [apply read_ext_ge in Hrl; [lia | exact Hb] | inversion Hrl; lia]. }
-    destruct (Z_le_gt_dec (op s + (ml + 4)) (oend - 12)) as [Hfar|Hnear].
-    - (* far: the full-decoding lemma applies *)
-      eapply is_cont_cod.
-      + pose proof hroom_range. apply (copy_match_lbl_sim s offset nib r3 ml r4); try assumption; try lia; try (rewrite Hp; exact Hfar).
-      + cbn beta. intros s' (H1 & H2 & H3 & H4 & H5 & H6 & H7).
-        replace (Z.min (ml + 4) (oend - op s)) with (ml + 4) by lia.
-        repeat split; try assumption; lia.
-    - unfold copy_match_lbl, read_len in *.
-      destruct (nib =? 15) eqn:E15.
-      + assert (E : (nib =? ML_MASK) = true) by fin. rewrite E. clear E.
-        destruct (rvl_sim r3 ml r4 (ip s) (iend - LASTLITERALS + 1) false (ok s) Hrl Hs Hip Hie) as (Hl & Hsr & kf' & Hr); [fin|].
-        rewrite Hr. cbv beta iota.
-        replace (nib + (ml - 15) + MINMATCH) with (ml + 4) by fin.
-        eapply is_cod_mono.
-        * apply (safe_match_cut (mkD (ip s + (Z.of_nat (length r3) - Z.of_nat (length r4))) (op s) (dm s) kf') offset (ml + 4)); cbn [ip op dm]; try assumption; lia.
-        * cbn [ip op dm]. intros done s' (H1 & H2 & H3 & H4 & H5).
-          split; [exact H2|]. split; [exact H3|]. split; [apply lzrec_v; [exact H4 | lia | lia]|]. split; [exact Hml|].
-          destruct done; [exact H5|]. split; [lia|]. split; [exact H1|]. rewrite H1. exact Hsr.
-      + inversion Hrl; subst ml r4.
-        assert (E : (nib =? ML_MASK) = false) by fin. rewrite E. clear E.
-        replace (nib + MINMATCH) with (nib + 4) by fin.
-        eapply is_cod_mono.
-        * apply (safe_match_cut s offset (nib + 4)); try assumption; lia.
-        * cbn beta. intros done s' (H1 & H2 & H3 & H4 & H5).
-          split; [exact H2|]. split; [exact H3|]. split; [apply lzrec_v; [exact H4 | lia | lia]|]. split; [exact Hml|].
-          destruct done; [exact H5|]. split; [lia|]. split; [lia|]. rewrite H1. exact Hs.
+    unfold copy_match_lbl, read_len in *.
+    destruct (nib =? 15) eqn:E15.
+    - assert (E : (nib =? ML_MASK) = true) by fin. rewrite E. clear E.
+      destruct (rvl_sim r3 ml r4 (ip s) (iend - LASTLITERALS + 1) false (ok s) Hrl Hs Hip Hie) as (Hl & Hsr & kf' & Hr); [fin|].
+      rewrite Hr. cbv beta iota.
+      replace (nib + (ml - 15) + MINMATCH) with (ml + 4) by fin.
+      eapply is_cod_mono.
+      + apply (safe_match_part (mkD (ip s + (Z.of_nat (length r3) - Z.of_nat (length r4))) (op s) (dm s) kf') offset (ml + 4)); cbn [ip op dm]; try assumption; lia.
+      + cbn [ip op dm]. intros done s' (H1 & H2 & H3 & H4 & H5).
+        split; [exact H2|]. split; [exact H3|]. split; [exact H4|]. split; [exact Hml|].
+        destruct done; [exact H5|]. split; [exact H5|]. split; [exact H1|]. rewrite H1. exact Hsr.
+    - inversion Hrl; subst ml r4.
+      assert (E : (nib =? ML_MASK) = false) by fin. rewrite E. clear E.
+      replace (nib + MINMATCH) with (nib + 4) by fin.
+      eapply is_cod_mono.
+      + apply (safe_match_part s offset (nib + 4)); try assumption; lia.
+      + cbn beta. intros done s' (H1 & H2 & H3 & H4 & H5).
+        split; [exact H2|]. split; [exact H3|]. split; [exact H4|]. split; [exact Hml|].
+        destruct done; [exact H5|]. split; [exact H5|]. split; [lia|]. rewrite H1. exact Hs.
   Qed.
 
   Lemma nth_firstn_lt : forall k (l : list Z) j, (j < k)%nat -> nth j (firstn k l) 0 = nth j l 0.
@@ -1081,7 +1106,7 @@ Section Sim.
     0 <= nib <= 15 -> bytes (o1 :: o2 :: r3) ->
     src_at srcm i (o1 :: o2 :: r3) -> 0 <= i -> i + Z.of_nat (length (o1 :: o2 :: r3)) <= iend ->
     read_len nib r3 = Some (ml, r4) -> (4 <= length r4)%nat ->
-    out_at (vget m1) o rout0 -> Z.of_nat (length rout0) <= o - lowPrefix -> 0 <= o -> o <= oend ->
+    out_at (vget m1) o rout0 -> Z.of_nat (length rout0) <= o - lowPrefix + hroom -> 0 <= o -> o <= oend ->
     copy_match rout0 (Z.to_nat (o1 + 256 * o2)) (Z.to_nat (ml + 4)) = Some rout1 ->
     1 <= o1 + 256 * o2 ->
     is_cont_or_done (copy_match_lbl partial dict srcm iend oend lowPrefix rlow dictm dictSize
@@ -1126,7 +1151,7 @@ Section Sim.
     src_at srcm (ip s) (lits ++ o1 :: o2 :: r3) -> 0 <= ip s ->
     ip s + Z.of_nat (length (lits ++ o1 :: o2 :: r3)) <= iend ->
     read_len (tok mod 16) r3 = Some (ml, r4) -> (6 <= length r4)%nat ->
-    out_at (vget (dm s)) (op s) rout -> Z.of_nat (length rout) <= op s - lowPrefix -> 0 <= op s -> op s <= oend ->
+    out_at (vget (dm s)) (op s) rout -> Z.of_nat (length rout) <= op s - lowPrefix + hroom -> 0 <= op s -> op s <= oend ->
     copy_match (rev lits ++ rout) (Z.to_nat (o1 + 256 * o2)) (Z.to_nat (ml + 4)) = Some rout1 ->
     1 <= o1 + 256 * o2 -> 0 <= ml ->
     is_cont_or_done (safe_lit partial dict srcm iend oend lowPrefix rlow dictm dictSize s tok (Z.of_nat (length lits)))
@@ -1225,7 +1250,7 @@ Section Sim.
     ip s + Z.of_nat (length (tok :: r)) <= iend ->
     read_len (tok / 16) r = Some (ll, r1) -> take (Z.to_nat ll) r1 = Some (lits, o1 :: o2 :: r3) ->
     read_len (tok mod 16) r3 = Some (ml, r4) -> (6 <= length r4)%nat ->
-    out_at (vget (dm s)) (op s) rout -> Z.of_nat (length rout) <= op s - lowPrefix -> 0 <= op s -> op s <= oend ->
+    out_at (vget (dm s)) (op s) rout -> Z.of_nat (length rout) <= op s - lowPrefix + hroom -> 0 <= op s -> op s <= oend ->
     apply_seq rout (mkSeq lits (o1 + 256 * o2) (ml + 4)) = Some rout1 ->
     is_cont_or_done (safe_top partial dict srcm iend oend lowPrefix rlow dictm dictSize s)
       (part_post (op s) (ll + (ml + 4)) rout1
@@ -1282,6 +1307,8 @@ Section Sim.
         destruct (copy18_lz m1 (op s + Z.of_nat (length lits)) (o1 + 256 * o2)) as [S R]; [lia|].
         set (m2 := copy18 m1 (op s + Z.of_nat (length lits)) (op s + Z.of_nat (length lits) - (o1 + 256 * o2))) in *.
         assert (Hfit : ll + (ml + 4) <= oend - op s) by fin.
+        assert (Hmatge : lowPrefix <= op s + Z.of_nat (length lits) - (o1 + 256 * o2)).
+        { destruct (is_prefix64k dict) eqn:E64; [pose proof (hroom_p64 E64); lia | fin]. }
         replace (Z.min (ll + (ml + 4)) (oend - op s)) with (ll + (ml + 4)) by lia.
         replace (Z.to_nat (ll + (ml + 4) - (ll + (ml + 4)))) with 0%nat by lia. cbn [skipn].
         split; [fin|]. split.
@@ -1488,7 +1515,7 @@ Section Sim.
     apply_seqs rout ss = Some rout' -> end_ok ss last = true ->
     bytes bs -> src_at srcm (ip s) bs -> 0 <= ip s -> ip s + Z.of_nat (length bs) <= iend ->
     (ip s + Z.of_nat (length bs) = iend \/ oend <= op s + total_len ss last) ->
-    out_at (vget (dm s)) (op s) rout -> Z.of_nat (length rout) <= op s - lowPrefix -> 0 <= op s -> op s <= oend ->
+    out_at (vget (dm s)) (op s) rout -> Z.of_nat (length rout) <= op s - lowPrefix + hroom -> 0 <= op s -> op s <= oend ->
     (length bs < fuel)%nat ->
     exists s', run partial dict srcm iend oend lowPrefix rlow dictm dictSize fuel false s
                = (Z.min oend (op s + total_len ss last), s')
@@ -1971,29 +1998,6 @@ Section Sim.
   (* the fast loop in partial mode                                            *)
   (* ====================================================================== *)
 
-  (* [safe_match] in partial mode anywhere in the buffer (match inside prefix + output) *)
-  Lemma safe_match_part s offset length :
-    partial = true ->
-    1 <= offset -> lowPrefix <= op s - offset -> 4 <= length -> 0 <= op s -> op s <= oend ->
-    is_cont_or_done (safe_match partial dict oend lowPrefix rlow dictm dictSize s offset length)
-      (fun done s' => ip s' = ip s /\ op s' = op s + Z.min length (oend - op s) /\
-                      same_below (dm s) (dm s') (op s) /\
-                      frec (vget (dm s')) offset (op s) (op s + Z.min length (oend - op s)) /\
-                      (if done then op s' = oend else op s' = op s + length)).
-  Proof.
-    intros Hp Ho Hmat Hlen Hop Hoe.
-    destruct (Z_le_gt_dec (op s + length) (oend - 12)) as [Hfar|Hnear].
-    - eapply is_cont_cod.
-      + pose proof hroom_range. apply (safe_match_v s offset length); try assumption; try lia; try (rewrite Hp; exact Hfar).
-      + intros s' (H1 & H2 & H3 & H4).
-        replace (Z.min length (oend - op s)) with length by lia. repeat split; assumption.
-    - eapply is_cod_mono.
-      + apply (safe_match_cut s offset length); try assumption; lia.
-      + cbn beta. intros done s' (H1 & H2 & H3 & H4 & H5).
-        split; [exact H1|]. split; [exact H2|]. split; [exact H3|]. split; [apply lzrec_v; [exact H4 | lia | lia]|].
-        destruct done; [exact H5 | lia].
-  Qed.
-
   (* the image after a possibly cut match, in terms of the specification's complete copy *)
   Lemma cut_match_out (m1 m' : mem) o off mlen n (rout0 rout1 : list Z) :
     out_at (vget m1) o rout0 -> same_below m1 m' o ->
@@ -2037,7 +2041,7 @@ Section Sim.
     0 <= tok < 256 -> bytes (o1 :: o2 :: r3) ->
     src_at srcm i (o1 :: o2 :: r3) -> 0 <= i -> i + Z.of_nat (length (o1 :: o2 :: r3)) <= iend ->
     read_len (tok mod 16) r3 = Some (ml, r4) -> (4 <= length r4)%nat ->
-    out_at (vget m1) o rout0 -> Z.of_nat (length rout0) <= o - lowPrefix -> 0 <= o -> o <= oend ->
+    out_at (vget m1) o rout0 -> Z.of_nat (length rout0) <= o - lowPrefix + hroom -> 0 <= o -> o <= oend ->
     copy_match rout0 (Z.to_nat (o1 + 256 * o2)) (Z.to_nat (ml + 4)) = Some rout1 ->
     1 <= o1 + 256 * o2 ->
     is_cod_any (fast_offset partial dict srcm iend oend lowPrefix rlow dictm dictSize (mkD i o m1 kf) tok)
@@ -2104,7 +2108,9 @@ Section Sim.
       destruct (o + (ml + 4) >=? oend - FASTLOOP_SAFE_DISTANCE) eqn:Efar; cbv beta iota.
       + apply Hsm; assumption.
       + destruct ((is_prefix64k dict || (o - (o1 + 256 * o2) >=? lowPrefix)) && (o1 + 256 * o2 >=? 8)) eqn:E18; cbv beta iota.
-        * destruct (copy18_lz m1 o (o1 + 256 * o2)) as [S R]; [lia|].
+        * assert (Hmatge : lowPrefix <= o - (o1 + 256 * o2)).
+          { destruct (is_prefix64k dict) eqn:E64; [pose proof (hroom_p64 E64); lia | fin]. }
+          destruct (copy18_lz m1 o (o1 + 256 * o2)) as [S R]; [lia|].
           cbn [is_cod_any ip op dm].
           assert (Hv : vmatch_post (mkD (i + 2) o m1 kf) (o1 + 256 * o2) (ml + 4)
                          (mkD (i + 2) (o + (ml + 4)) (copy18 m1 o (o - (o1 + 256 * o2))) (kf && rd_src iend i 2 && wr oend o 18 && rd_dst oend rlow (o - (o1 + 256 * o2)) 18))).
@@ -2130,7 +2136,7 @@ Section Sim.
     ip s + Z.of_nat (length (tok :: r)) <= iend ->
     read_len (tok / 16) r = Some (ll, r1) -> take (Z.to_nat ll) r1 = Some (lits, o1 :: o2 :: r3) ->
     read_len (tok mod 16) r3 = Some (ml, r4) -> (6 <= length r4)%nat ->
-    out_at (vget (dm s)) (op s) rout -> Z.of_nat (length rout) <= op s - lowPrefix -> 0 <= op s -> op s <= oend - 64 ->
+    out_at (vget (dm s)) (op s) rout -> Z.of_nat (length rout) <= op s - lowPrefix + hroom -> 0 <= op s -> op s <= oend - 64 ->
     apply_seq rout (mkSeq lits (o1 + 256 * o2) (ml + 4)) = Some rout1 ->
     is_cod_any (fast_top partial dict srcm iend oend lowPrefix rlow dictm dictSize s)
       (part_post (op s) (ll + (ml + 4)) rout1
@@ -2308,7 +2314,7 @@ Section Sim.
     apply_seqs rout ss = Some rout' -> end_ok ss last = true ->
     bytes bs -> src_at srcm (ip s) bs -> 0 <= ip s -> ip s + Z.of_nat (length bs) <= iend ->
     (ip s + Z.of_nat (length bs) = iend \/ oend <= op s + total_len ss last) ->
-    out_at (vget (dm s)) (op s) rout -> Z.of_nat (length rout) <= op s - lowPrefix -> 0 <= op s -> op s <= oend ->
+    out_at (vget (dm s)) (op s) rout -> Z.of_nat (length rout) <= op s - lowPrefix + hroom -> 0 <= op s -> op s <= oend ->
     (fast = true -> op s <= oend - 64) ->
     (length bs < fuel)%nat ->
     exists s', run partial dict srcm iend oend lowPrefix rlow dictm dictSize fuel fast s
